@@ -1,5 +1,6 @@
 /- C03 — memory safety of the intrusive lists (initial: Layer A guards; Layer B chain lemmas are in Lemmas/Chain) -/
 import Caches.Lemmas.RawLru
+import Caches.Lemmas.Chain
 namespace C03
 open M M.RawLru
 variable {κ ν : Type} [DecidableEq κ]
@@ -21,4 +22,64 @@ theorem rawlru_drop_all (c : RawLru κ ν) : c.dropCache.drops.length = 2 * c.it
   induction c.items with
   | nil => rfl
   | cons e t ih => simp only [List.flatMap_cons, List.length_append, dropEnt, List.length_cons, List.length_nil, ih]; omega
+
+/-! ## Layer B: the pointer chain (`head ⇄ n₁ ⇄ … ⇄ tail`), every chain length, every position -/
+open M.Chain
+
+/-- `attach` (raw.rs:1543) of a node that is not in the chain: well formed, node first -/
+theorem chain_attach (h : Heap) (head tail n : Nat) (l : List Nat) (hw : WF h head tail l)
+    (hn : n ∉ head :: (l ++ [tail])) : WF (attach h head n) head tail (n :: l) := attach_wf h head tail n l hw hn
+
+/-- `detach` (raw.rs:1536) of any entry: well formed, exactly that entry unlinked -/
+theorem chain_detach (h : Heap) (head tail : Nat) (l : List Nat) (hw : WF h head tail l) (n : Nat) (hn : n ∈ l) :
+    WF (detach h n) head tail (l.erase n) := detach_wf h head tail l hw n hn
+
+/-- `detach` dereferences only the node, its predecessor (head or an entry) and its successor (an entry or tail):
+    never a freed or foreign address -/
+theorem chain_detach_derefs (h : Heap) (head tail : Nat) (l : List Nat) (hw : WF h head tail l) (n : Nat) (hn : n ∈ l) :
+    (h n).prev ∈ head :: l ∧ (h n).next ∈ l ++ [tail] := detach_derefs h head tail l hw n hn
+
+/-- the hit path `detach; attach` is move-to-front -/
+theorem chain_move_front (h : Heap) (head tail : Nat) (l : List Nat) (hw : WF h head tail l) (n : Nat) (hn : n ∈ l) :
+    WF (attach (detach h n) head n) head tail (n :: l.erase n) := move_front_wf h head tail l hw n hn
+
+/-- `(*tail).prev` read as an entry (remove_lru_in, replace_or_create_node) is an entry whenever the list is
+    non-empty, and is the head sentinel exactly when it is empty — which is why both call sites test `len` first -/
+theorem chain_tail_prev (h : Heap) (head tail : Nat) (l : List Nat) (hw : WF h head tail l) :
+    (l ≠ [] → (h tail).prev ∈ l) ∧ (l = [] → (h tail).prev = head) := by
+  have := tail_prev h head tail l hw
+  constructor
+  · intro hne
+    rw [this, List.getLast_cons hne]; exact List.getLast_mem hne
+  · intro he; subst he; simpa using this
+
+/-- the iterator's two cursors walk exactly the entries: forwards from `(*head).next`, backwards from `(*tail).prev` -/
+theorem chain_walks (h : Heap) (head tail : Nat) (l : List Nat) (hw : WF h head tail l) :
+    walkNext h l.length (h head).next = l ∧ walkPrev h l.length (h tail).prev = l.reverse :=
+  ⟨walkNext_wf h head tail l hw, walkPrev_wf h head tail l hw⟩
+
+/-- refinement: unlinking node `n` is `erase` of its key on the abstract recency list -/
+theorem view_erase (ent : Nat → κ × ν) (l : List Nat) (hk : (keys (l.map ent)).Nodup) (n : Nat) (hn : n ∈ l) :
+    (l.erase n).map ent = erase (ent n).1 (l.map ent) := by
+  induction l with
+  | nil => simp at hn
+  | cons a t ih =>
+    by_cases ha : a = n
+    · subst ha; simp [M.erase]
+    · have hnt : n ∈ t := by simp only [List.mem_cons] at hn; rcases hn with hn | hn; exact absurd hn.symm ha; exact hn
+      have hk' : (ent a).1 ∉ keys (t.map ent) ∧ (keys (t.map ent)).Nodup := by
+        unfold keys at hk ⊢; simpa only [List.map_cons, List.nodup_cons] using hk
+      have hne : (ent a).1 ≠ (ent n).1 := by
+        intro hc; apply hk'.1; rw [hc]; unfold keys; simp only [List.map_map, List.mem_map]; exact ⟨n, hnt, rfl⟩
+      rw [List.erase_cons_tail (by simpa using ha)]
+      simp only [List.map_cons]
+      rw [show ent a = ((ent a).1, (ent a).2) from rfl]
+      simp only [M.erase, hne, if_false]
+      rw [ih hk'.2 hnt]
+
+/-- non-vacuity: a concrete three-node chain is well formed, and detaching its middle node leaves the two others -/
+example : let h : Heap := fun x => match x with
+            | 0 => ⟨0, 2⟩ | 2 => ⟨0, 3⟩ | 3 => ⟨2, 4⟩ | 4 => ⟨3, 1⟩ | _ => ⟨4, 1⟩
+          WF h 0 1 [2, 3, 4] ∧ WF (detach h 3) 0 1 [2, 4] := by
+  refine ⟨⟨by decide, by simp [Linked]⟩, ⟨by decide, by simp [Linked, detach, setNext, setPrev]⟩⟩
 end C03
